@@ -43,7 +43,6 @@ type spec struct {
 	Calls []call   `json:"calls"`
 	Feats []string `json:"feats,omitempty"`
 	Ret   int      `json:"ret,omitempty"` // write kinds: 0 none, 1 RETURNING list, 2 RETURNING *
-	Decoy int      `json:"decoy,omitempty"`
 }
 
 func (s *spec) clone() *spec {
@@ -294,7 +293,7 @@ var (
 	randExWraps   = []string{"typeof", "notnull", "and0", "mul0", "modlt", "casegt", "between64", "coalesce0"}
 	blobRawWraps  = []string{"", "hex", "lowerhex", "paren"}
 	blobExWraps   = []string{"length", "typeof", "lenhex"}
-	timeCondWraps = []string{"notnull", "lt", "gt", "ne"}
+	timeCondWraps = []string{"notnull", "lt", "gt", "ne", "lt25"}
 )
 
 func inList(l []string, s string) bool {
@@ -416,6 +415,8 @@ func (rc *rctx) cond(c *call) string {
 		return x + " > '2000-01-01'"
 	case "ne":
 		return "b <> " + x
+	case "lt25":
+		return x + " < '2025-01-01'"
 	}
 	return x + " IS NOT NULL"
 }
@@ -435,7 +436,8 @@ func (rc *rctx) intx(c *call) string {
 	case "randomblob":
 		return "(length(" + x + ") * 0)"
 	}
-	return "(" + x + " IS NULL)"
+	// 0 or 1 depending on the clock: visible in the row count
+	return "coalesce(" + x + " < '2025-01-01', 0)"
 }
 
 // ---------------------------------------------------------------------------
@@ -531,6 +533,15 @@ var featDefs = []featDef{
 	{tag: "item-json", item: `'{"k":[1,2]}' -> '$.k[1]'`},
 	{tag: "item-collate", item: "b COLLATE NOCASE"},
 
+	// decoys: the function words where they are not calls
+	{tag: "decoy-string", item: "'random() date(''now'') datetime('"},
+	{tag: "decoy-alias-dq", item: `b AS "random()"`},
+	{tag: "decoy-alias-dq-now", item: `b AS "datetime('now')"`},
+	{tag: "decoy-alias-br", item: "b AS [date(]"},
+	{tag: "decoy-alias-bt", item: "b AS `time(`"},
+	{tag: "decoy-where", where: "coalesce(b, '') <> 'unixepoch() julianday( timediff( strftime(''%s'') randomblob(4)'"},
+	{tag: "decoy-comment", kinds: "*"},
+
 	// structural features, handled by the skeleton code
 	{tag: "distinct", kinds: "select insert-select"},
 	{tag: "join", kinds: "select"},
@@ -558,7 +569,6 @@ var featDefs = []featDef{
 	{tag: "upsert-excluded", kinds: "upsert"},
 	{tag: "set-row-value", kinds: "update"},
 	{tag: "update-from", kinds: "update"},
-	{tag: "delete-limit", kinds: "delete"},
 	{tag: "cte-plain", kinds: "select insert-select update delete"},
 	{tag: "cte-recursive", kinds: "select"},
 
@@ -599,6 +609,9 @@ func featApplies(f *featDef, sp *spec) bool {
 	if f.where != "" {
 		return hasWhere(sp.Kind)
 	}
+	if f.tag == "decoy-string" && sp.Kind == "insert" {
+		return true
+	}
 	if f.item != "" {
 		if f.kinds != "" && !strings.Contains(" "+f.kinds+" ", " "+sp.Kind+" ") {
 			return false
@@ -617,15 +630,6 @@ func featApplies(f *featDef, sp *spec) bool {
 	return strings.Contains(" "+f.kinds+" ", " "+sp.Kind+" ")
 }
 
-var decoyItems = []string{
-	"",
-	"'random()'", "'date(''now'')'", "'datetime('", "'x randomblob(4) y'", "'strftime(''%s'')'",
-	`'now'`, `'unixepoch()'`, "'julianday( timediff('",
-}
-var decoyAliases = []string{
-	"", `"random()"`, `"datetime('now')"`, "[date(]", "`time(`", `"unixepoch()"`,
-}
-var decoyComments = []string{"", "/* random() date('now') */", "/* time( */"}
 
 // positions available per kind
 var kindPos = map[string][]string{
@@ -694,10 +698,8 @@ func render(sp *spec, pin bool, T int64) *rendered {
 	if sp.has("inline-comment") {
 		sql = strings.Replace(sql, " ", " /* c */ ", 1)
 	}
-	if sp.Decoy > 0 {
-		if cm := decoyComments[sp.Decoy%len(decoyComments)]; cm != "" {
-			sql = strings.Replace(sql, " ", " "+cm+" ", 1)
-		}
+	if sp.has("decoy-comment") {
+		sql = strings.Replace(sql, " ", " /* random() date('now') time( */ ", 1)
 	}
 	if sp.has("newlines") {
 		sql = replaceOutsideQuotes(sql, func(s string) string {
@@ -875,20 +877,6 @@ func (rc *rctx) featItems() (items []string, modes []int) {
 		}
 		items = append(items, f.item)
 		modes = append(modes, f.mode)
-	}
-	if rc.sp.Decoy > 0 {
-		d := decoyItems[rc.sp.Decoy%len(decoyItems)]
-		al := decoyAliases[rc.sp.Decoy%len(decoyAliases)]
-		if d != "" && al != "" {
-			items = append(items, d+" AS "+al)
-			modes = append(modes, mExact)
-		} else if d != "" {
-			items = append(items, d)
-			modes = append(modes, mExact)
-		} else if al != "" {
-			items = append(items, "b AS "+al)
-			modes = append(modes, mExact)
-		}
 	}
 	return
 }
@@ -1184,11 +1172,9 @@ func (rc *rctx) insertStmt(out *rendered) string {
 			exprs = append(exprs, "(SELECT "+x+")")
 			ms = append(ms, m)
 		}
-		if sp.Decoy > 0 {
-			if d := decoyItems[sp.Decoy%len(decoyItems)]; d != "" {
-				exprs = append(exprs, d)
-				ms = append(ms, mExact)
-			}
+		if sp.has("decoy-string") {
+			exprs = append(exprs, "'random() date(''now'') datetime('")
+			ms = append(ms, mExact)
 		}
 		// rows of (id, a, c, d, e); values fill c,d,e then spill to more rows
 		var rows []string
@@ -1323,8 +1309,11 @@ func (rc *rctx) upsertStmt(out *rendered) string {
 func (rc *rctx) upCond(c *call) string {
 	if isTimeFn(c.Fn) && !c.Dead {
 		x, _ := rc.callText(c)
-		if c.Wrap == "gt" {
+		switch c.Wrap {
+		case "gt":
 			return x + " > '2000-01-01'"
+		case "lt25":
+			return x + " < '2025-01-01'"
 		}
 		return x + " IS NOT NULL"
 	}
@@ -1410,12 +1399,7 @@ func (rc *rctx) deleteStmt(out *rendered) string {
 	}
 	conds = append(conds, "id <> 3")
 	sql += joinConds(conds)
-	ret := rc.returning(out, "t")
-	if sp.has("delete-limit") {
-		// RETURNING comes before ORDER BY/LIMIT in SQLite's grammar
-		return sql + ret + " ORDER BY id LIMIT 2"
-	}
-	return sql + ret
+	return sql + rc.returning(out, "t")
 }
 
 func (rc *rctx) valuesStmt(out *rendered) string {
@@ -1553,9 +1537,6 @@ func genSpec(r *rand.Rand) *spec {
 			sp.Feats = append(sp.Feats, f.tag)
 		}
 	}
-	if r.IntN(5) == 0 {
-		sp.Decoy = 1 + r.IntN(40)
-	}
 	normalize(sp)
 	return sp
 }
@@ -1672,9 +1653,6 @@ func normalize(sp *spec) {
 			}
 		}
 	}
-	if sp.Kind == "delete" && sp.has("delete-limit") && (sp.has("table-alias") || sp.has("schema-prefix")) {
-		drop("delete-limit")
-	}
 	if sp.has("not-indexed") && (sp.has("table-alias") || sp.has("schema-prefix") || sp.has("qid-dq") || sp.has("qid-br") || sp.has("qid-bt")) {
 		drop("not-indexed")
 	}
@@ -1689,10 +1667,30 @@ func normalize(sp *spec) {
 			}
 		}
 	}
-	// wrappers must fit the role of the position
+	// wrappers must fit the role of the position; columns only where t is in scope
 	for i := range sp.Calls {
 		c := &sp.Calls[i]
 		role := posRole(c.Pos)
+		noCols := false
+		switch c.Pos {
+		case "value", "upset", "upwhere", "cte", "fromsub", "limit":
+			noCols = true
+		case "scalar":
+			noCols = sp.Kind == "insert"
+		}
+		if sp.Kind == "values" || sp.Kind == "upsert" {
+			noCols = true
+		}
+		if noCols && c.Form == "col" {
+			if c.Fn == "randomblob" {
+				c.Form = "expr"
+			} else {
+				c.Form = "lit"
+			}
+		}
+		if noCols && isTimeFn(c.Fn) && (c.Wrap == "lt" || c.Wrap == "ne") && role == "cond" {
+			c.Wrap = "lt25"
+		}
 		switch c.Fn {
 		case "random":
 			if role != "out" && !inList(randExWraps, c.Wrap) {
@@ -1713,9 +1711,6 @@ func normalize(sp *spec) {
 				c.Wrap = ""
 			}
 			if role == "int" {
-				c.Wrap = ""
-			}
-			if c.Pos == "upwhere" && (c.Wrap == "lt" || c.Wrap == "ne") {
 				c.Wrap = ""
 			}
 		}
@@ -1783,9 +1778,6 @@ func (sp *spec) sig() string {
 	fs := append([]string(nil), sp.Feats...)
 	sort.Strings(fs)
 	parts = append(parts, fs...)
-	if sp.Decoy > 0 {
-		parts = append(parts, "decoy")
-	}
 	if len(parts) == 0 {
 		return "plain"
 	}
